@@ -834,6 +834,11 @@ func (r *Run) wellTyped(t Term, typ types.Type, st *State) Term {
 		return And(cs...)
 	case *types.Interface:
 		return And(Ge(ifTag(t), mkInt(0)), Implies(Eq(ifTag(t), mkInt(0)), Eq(ifVal(t), mkInt(0))))
+	case *types.Struct:
+		// a struct value is a reference to storage that exists (a later allocation is a different object)
+		if st != nil {
+			return Le(t, r.heapGet(st, "$top"))
+		}
 	}
 	return tTrue
 }
